@@ -64,9 +64,9 @@ class Book:
         return {x.id for x in self.held if self.live(x)}
 
 
-def fresh_json(node, counter):
+def fresh_json(node, counter, indent=None):
     from metapype.model import metapype_io
-    doc = json.loads(metapype_io.to_json(node))
+    doc = json.loads(metapype_io.to_json(node, indent=indent))
 
     def ren(d):
         (name, body), = d.items()
@@ -137,9 +137,22 @@ def self_referential(root):
     return False
 
 
-def choose_op(rng, b, idc):
+REPEATABLE = ("expand", "prune", "copy", "json")
+
+
+def choose_op(rng, b, idc, prev=None):
     """Pick the next operation as plain data (indices into b.held)."""
     held = b.held
+    # history sensitivity: the same operation again on the same object (expand twice, prune twice,
+    # copy the node again, copy the copy), when it is still inside the statement
+    if prev is not None and prev[0] in REPEATABLE and rng.random() < 0.35:
+        n = held[prev[1]]
+        if prev[0] == "copy":
+            return rng.choice([prev, ("copy", len(held) - 1 - rng.randrange(min(3, len(held))))])
+        if prev[0] == "json":
+            return prev
+        if b.all_live(n) and (prev[0] != "expand" or (not self_referential(n) and expand_in_scope(n))):
+            return prev
     for _ in range(30):
         r = rng.random()
         if not held or r < 0.16:
@@ -151,9 +164,9 @@ def choose_op(rng, b, idc):
         if r < 0.26:
             return ("copy", k)
         if r < 0.33:
-            return ("json", k)
+            return ("json", k, rng.choice([None, None, 2]))
         if r < 0.40:
-            return ("xml", random_xml(rng))
+            return ("xml", random_xml(rng), rng.random() < 0.7, rng.random() < 0.3)
         if r < 0.58:
             roots = [i for i, c in enumerate(held) if is_detached_root(b, c)]
             if not roots:
@@ -179,7 +192,9 @@ def choose_op(rng, b, idc):
             if inside_references(n):
                 continue
             idc[0] += 1
-            return ("refpattern", k, "r%d" % idc[0])
+            # referenced element with 0 / 1 / several children, 1-3 references to the same id, each at its own depth
+            return ("refpattern", k, "r%d" % idc[0], rng.choice([0, 0, 1, 2, 3]), rng.randint(1, 3),
+                    tuple(rng.randint(0, 2) for _ in range(3)))
         if r < 0.88:
             withrefs = [i for i, x in enumerate(held) if b.all_live(x) and any(y.name == "references" for y in subtree_nodes(x))]
             if withrefs and rng.random() < 0.8:
@@ -216,20 +231,33 @@ def apply_op(b, op, jc, stats=None):
     elif k == "copy":
         b.discover(held[op[1]].copy())
     elif k == "json":
-        b.discover(metapype_io.from_json(fresh_json(held[op[1]], jc)))
+        b.discover(metapype_io.from_json(fresh_json(held[op[1]], jc, op[2] if len(op) > 2 else None)))
     elif k == "xml":
-        b.discover(metapype_io.from_xml(op[1]))
+        if len(op) > 2:
+            b.discover(metapype_io.from_xml(op[1], clean=op[2], collapse=op[3]))
+        else:
+            b.discover(metapype_io.from_xml(op[1]))
     elif k == "attach":
         held[op[1]].add_child(held[op[2]])
     elif k == "refpattern":
         top = held[op[1]]
-        cr, ind, sur, co, ref = Node("creator"), Node("individualName"), Node("surName", content="s"), Node("contact"), Node("references", content=op[2])
+        nkids, nrefs, depths = (op[3], op[4], op[5]) if len(op) > 3 else (1, 1, [0])
+        cr = Node("creator")
         cr.add_attribute("id", op[2])
-        ind.add_child(sur)
-        cr.add_child(ind)
-        co.add_child(ref)
+        for j in range(nkids):                      # the referenced element: empty, one child, or several
+            ind = Node("individualName")
+            ind.add_child(Node("surName", content="s%d" % j))
+            cr.add_child(ind)
         top.add_child(cr)
-        top.add_child(co)
+        for j in range(nrefs):                      # several references to the same id, at different depths
+            holder = top
+            for _ in range(depths[j % len(depths)]):
+                mid = Node("dataset")
+                holder.add_child(mid)
+                holder = mid
+            co = Node("contact")
+            co.add_child(Node("references", content=op[2]))
+            holder.add_child(co)
         b.discover(top)
     elif k == "setid":
         held[op[1]].add_attribute("id", op[2])
@@ -309,7 +337,7 @@ def run_history(ctx, oplog_or_none, rng, length):
     idc, jc = [0], [0]
     log = []
     for step in range(length if oplog_or_none is None else len(oplog_or_none)):
-        op = choose_op(rng, b, idc) if oplog_or_none is None else tuple(oplog_or_none[step])
+        op = choose_op(rng, b, idc, log[-1] if log else None) if oplog_or_none is None else tuple(oplog_or_none[step])
         log.append(op)
         ctx.count("op:" + op[0] + (":" + str(op[-1]) if op[0] in ("replace", "prune", "delete") else ""))
         try:
@@ -337,7 +365,7 @@ def run_history(ctx, oplog_or_none, rng, length):
             ctx.fail(f"C14:{op[0]}:{bad[0]}", f"after {op[0]}: {bad[1]}",
                      {"kind": "impl-vs-statement", "history": [list(o) for o in log], "details": bad[2]})
             return log
-        ctx.case((tuple(log[-3:]), len(b.held), len(b.discarded)), True)
+        ctx.case((repr(log[-3:]), len(b.held), len(b.discarded)), True)
     ctx.count("nodes_per_history", len(b.held))
     ctx.count("discarded_per_history", len(b.discarded))
     return log
